@@ -119,6 +119,17 @@ func (c *Ctx) oneShotK(kind string, extra *Term, timeout time.Duration, want []*
 	if extra != nil {
 		s.assert(extra)
 	}
+	if len(want) > 0 {
+		// the terms whose values are wanted are defined before check-sat: cvc5 evaluates terms
+		// introduced after the check against a stale model (observed: all-zero values)
+		var sb strings.Builder
+		for _, t := range want {
+			s.define(t, &sb)
+		}
+		if sb.Len() > 0 {
+			s.send(sb.String())
+		}
+	}
 	r := s.check(timeout)
 	var vals map[*Term]string
 	if r == Sat && want != nil {
